@@ -14,3 +14,4 @@ pub mod runner;
 pub mod sanit;
 pub mod script;
 pub mod subctl;
+pub mod tcp;
